@@ -272,6 +272,23 @@ func Build(spec Spec) *Built {
 			n, fn = b.MethodNode(t, "Val", false, !all && r.Chance(1, 3), vpo, fapi, nil)
 			fapi.Decls = append(fapi.Decls, n)
 			env.Val = fn
+			if spec.Hostile {
+				an := "Al" + strings.ToUpper(t.Name[:1]) + t.Name[1:]
+				fapi.Decls = append(fapi.Decls, b.tstmt("type "+an+" = %T", free(refT(t, SubOther), TONL)))
+				var apo, ppo *Allow
+				if coin(1, 2) {
+					apo = b.randAllow(r, allowPool)
+				}
+				if coin(1, 2) {
+					ppo = b.randAllow(r, allowPool)
+				}
+				afn := &Func{Pkg: d, Name: "ViaAlias", Recv: t, TestOnly: coin(1, 2), PkgOnly: apo, File: fapi}
+				fapi.Decls = append(fapi.Decls, &Node{Fn: afn, Doc: fnDoc(afn), Pre: []*Line{b.line("func (r " + an + ") ViaAlias() {")}, Post: []*Line{b.line("}")}})
+				env.AliasM = afn
+				pfn := &Func{Pkg: d, Name: "ViaParen", Recv: t, TestOnly: coin(1, 2), PkgOnly: ppo, File: fapi}
+				fapi.Decls = append(fapi.Decls, &Node{Fn: pfn, Doc: fnDoc(pfn), Pre: []*Line{b.tl("func (r (*%T)) ViaParen() {", refT(t, SubRecv))}, Post: []*Line{b.line("}")}})
+				env.ParenM = pfn
+			}
 			if !exportedName(t.Name) && t.Kind == "struct" {
 				// an unexported annotated type that importers reach through an exported alias and an exported container type
 				pub := "Pub" + strings.ToUpper(t.Name[:1]) + t.Name[1:]
@@ -410,7 +427,9 @@ func Build(spec Spec) *Built {
 				if spec.Hostile {
 					pu := useT(URecvIncDec, t, "")
 					pu.Feature = "paren-recv"
-					body := []*Node{b.stmt("(*r)--", pu)}
+					po, po2 := useT(URecvOpAssign, t, ""), useT(URecvOpAssign, t, "")
+					po.Feature, po2.Feature = "recv-op-assign", "recv-op-assign"
+					body := []*Node{b.stmt("(*r)--", pu), b.stmt("*r += 5", po), b.stmt("*r <<= 1", po2)}
 					n, _ := b.MethodNode(t, b.d("Paren"), true, false, nil, fapi, body)
 					fapi.Decls = append(fapi.Decls, n)
 					sh := b.stmt("v1 := func(r *int) { *r = 1 }")
@@ -1110,6 +1129,14 @@ func exoticLineDirectiveMissing(x *$T) { x.S[0] = 1 }
 /*line b.go:4*/ func exoticLineDirectiveBlock(x *$T) { x.F -= 1 }
 //line exotic.go:1000000
 func exoticLineDirectiveBeyond(x *$T) { x.F = 3; _ = $T{} }
+//line exotic.go:500000
+func exoticLineDirectiveIgnore(x *$T) { x.F = 4 } // @ignore IMM01
+func exoticLineDirectiveIgnoreInside(x *$T) {
+//line gen.tmpl:1000
+	x.F = 5 // @ignore IMM01
+	// @ignore IMM
+	x.F = 6
+}
 `
 	src = strings.ReplaceAll(src, "$B", t.Name)
 	src = strings.ReplaceAll(src, "$T", T)
